@@ -2075,3 +2075,53 @@ E("EQ-drop-manifest-early-return", KS,
   """        let deleted = self.is_deleted.load(std::sync::atomic::Ordering::Acquire);
         if deleted {
             let path = &self.tree.tree_config().path;""")
+B("F06-C17-drop-blocking-send", "C17", "C17:R-C17.4:<db::DatabaseInner as std::ops::Drop>::drop:wait-loop-never-blocks", DB,
+  "            let _ = self.worker_pool.sender.try_send(WorkerMessage::Close);", "            let _ = self.worker_pool.sender.send(WorkerMessage::Close);")
+B("S08-C15-lz4-ondisk-gt-value-len-rejected", "C15", "C15:R-C15.6", ENTRY,
+  """                        let compressed_value =
+                            Slice::from_reader(reader, on_disk_value_len as usize)?;
+""",
+  """                        if on_disk_value_len > value_len {
+                            return Err(crate::Error::JournalRecovery(
+                                crate::JournalRecoveryError::InsufficientLength,
+                            ));
+                        }
+
+                        let compressed_value =
+                            Slice::from_reader(reader, on_disk_value_len as usize)?;
+""")
+B("S09-C16-fifo-limit-read-u32", "C16", "C16:R-C16.2:keyspace::options::CreateOptions::from_kvs:width-fifo_limit", OPTS,
+  "                let fifo_limit = (&mut &fifo_limit[..]).read_u64::<LE>()?;", "                let fifo_limit = u64::from((&mut &fifo_limit[..]).read_u32::<LE>()?);")
+B("S10-C17-lock-after-journal-creation", "C17", "C17:R-C17.2:db::Database::create_new:lock-dominates", DB,
+  """        let lock_file = LockedFileGuard::create_new(&config.path.join(LOCK_FILE))?;
+
+        let journal_folder_path = &config.path;
+        let keyspaces_folder_path = config.path.join(KEYSPACES_FOLDER);
+
+        std::fs::create_dir_all(&keyspaces_folder_path)?;
+
+        let active_journal_path = journal_folder_path.join("0.jnl");
+        let journal = Journal::create_new(&active_journal_path)?.with_compression(
+            config.journal_compression_type,
+            config.journal_compression_threshold,
+        );
+        let journal = Arc::new(journal);
+""",
+  """        let journal_folder_path = &config.path;
+        let keyspaces_folder_path = config.path.join(KEYSPACES_FOLDER);
+
+        std::fs::create_dir_all(&keyspaces_folder_path)?;
+
+        let active_journal_path = journal_folder_path.join("0.jnl");
+        let journal = Journal::create_new(&active_journal_path)?.with_compression(
+            config.journal_compression_type,
+            config.journal_compression_threshold,
+        );
+        let journal = Arc::new(journal);
+
+        let lock_file = LockedFileGuard::create_new(&config.path.join(LOCK_FILE))?;
+""")
+B("S12-C04-replayed-clear-only-clears-active-memtable", "C04", "C04:R-C04.1:db::Database::recover:replay-cleared", DB,
+  "                        keyspace.tree.clear().ok();", "                        keyspace.tree.clear_active_memtable();")
+B("S13-C10-watermark-from-active-memtable-only", "C10", "C10:R-C10.3:supervisor::Supervisor::build_seqno_map", "src/supervisor.rs",
+  "if let Some(lsn) = keyspace.tree.get_highest_memtable_seqno() {", "if let Some(lsn) = keyspace.tree.active_memtable().get_highest_seqno() {")
